@@ -79,6 +79,7 @@ pub struct Ctx {
     pub steps: Mutex<Vec<StepObs>>,
     pub caller_tkey: u64,
     pub src_items: Vec<Item>,
+    pub src_deque: std::collections::VecDeque<Item>,
     pub pre_items: Vec<Item>,
     pub identity_item: Item,
     pub slot_overflow: AtomicBool,
@@ -130,15 +131,31 @@ impl Ctx {
             Mode::S => Some(Sched::new(case.strategy, case.sched_seed)),
             _ => None,
         };
-        let src_items = match case.src {
-            Src::Slice => (0..case.len as u64).map(|p| Item::new(p << 12, case.val_at(p))).collect(),
-            _ => vec![],
+        let src_items: Vec<Item> = if case.src.borrows_ctx_items() && case.src != Src::DequeRef {
+            (0..case.len as u64).map(|p| Item::new(p << 12, case.val_at(p))).collect()
+        } else {
+            vec![]
         };
-        let pre_items = match case.src {
-            Src::Slice => (0..case.pre_len as u64)
+        let src_deque: std::collections::VecDeque<Item> = if case.src == Src::DequeRef {
+            // make the ring buffer wrap around, so that the deque is not one contiguous slice
+            let mut d = std::collections::VecDeque::with_capacity(case.len + 3);
+            let k = case.len / 3;
+            for p in (0..k as u64).rev() {
+                d.push_front(Item::new(p << 12, case.val_at(p)));
+            }
+            for p in k as u64..case.len as u64 {
+                d.push_back(Item::new(p << 12, case.val_at(p)));
+            }
+            d
+        } else {
+            Default::default()
+        };
+        let pre_items = if case.src.borrows_ctx_items() {
+            (0..case.pre_len as u64)
                 .map(|k| Item::new(PRE_BASE_ID + k, (k % 7) as u32))
-                .collect(),
-            _ => vec![],
+                .collect()
+        } else {
+            vec![]
         };
         let ctx = Box::new(Ctx {
             case,
@@ -162,6 +179,7 @@ impl Ctx {
             steps: Mutex::new(vec![]),
             caller_tkey: tkey(),
             src_items,
+            src_deque,
             pre_items,
             identity_item: Item::identity(),
             slot_overflow: AtomicBool::new(false),
